@@ -89,9 +89,20 @@ func c05(c *h.Ctx) {
 			}
 			stages = append(stages, st)
 		}
-		tasks.Set("t", gen.OM{{K: "command", V: []interface{}{"true"}}})
+		// properties of the tasks (interactive, contexts, ...) are no part of the dependency relation
+		tdef := func() gen.OM {
+			t := gen.OM{{K: "command", V: []interface{}{"true"}}}
+			if r.Chance(40) {
+				t.Set("interactive", true)
+			}
+			if r.Chance(20) {
+				t.Set("allow_failure", true)
+			}
+			return t
+		}
+		tasks.Set("t", tdef())
 		for _, u := range unnamed {
-			tasks.Set(tk[u], gen.OM{{K: "command", V: []interface{}{"true"}}})
+			tasks.Set(tk[u], tdef())
 		}
 		cfg := gen.OM{{K: "tasks", V: tasks}, {K: "pipelines", V: gen.OM{{K: "p", V: stages}}}}
 		dir := caseDir(c, fmt.Sprintf("g%d", i))
